@@ -154,31 +154,51 @@ def snapshotting_int(check: Check, repo: Repo) -> None:
         check.count("snapshotting_int_states", n)
 
 
+def history_fields(repo: Repo) -> set[str]:
+    """The attributes ParserState.checkpoint() appends to (the saved positions / tags, whatever they are called and
+    however many lists they are kept in)."""
+    fn = repo.func(STATE, "ParserState.checkpoint")
+    return {n.func.value.attr for n in ast.walk(fn) if isinstance(n, ast.Call) and isinstance(n.func, ast.Attribute) and n.func.attr == "append"
+            and isinstance(n.func.value, ast.Attribute) and isinstance(n.func.value.value, ast.Name) and n.func.value.value.id == "self"}
+
+
 def who_may_write(check: Check, repo: Repo) -> None:
     private = {
         "items": ("Stack", STACK), "popped": ("Stack", STACK), "lengths": ("Stack", STACK),
-        "_checkpoints": ("SnapshottingInt", CINT), "_value": ("SnapshottingInt", CINT), "_pos_history": ("ParserState", STATE),
+        "_checkpoints": ("SnapshottingInt", CINT), "_value": ("SnapshottingInt", CINT),
     }
+    hist = history_fields(repo)
+    for h in hist:
+        private.setdefault(h, ("ParserState", STATE))
+    if not hist:
+        check.notes.append("WHO-MAY-WRITE: ParserState.checkpoint() appends to no attribute of its own; where the saved positions live is not read (COVER decides what checkpoint / ok / restore do)")
     n = 0
     from ..typed import Types
 
     types = Types(repo)
+    owner_type = {"Stack": "stack.Stack", "SnapshottingInt": "checkpoint_int.SnapshottingInt", "ParserState": "state.ParserState"}
     for rel in repo.py_files:
         m = repo.mod(rel)
         for node in ast.walk(m.tree):
             if isinstance(node, ast.Attribute) and node.attr in private:
+                cls, home = private[node.attr]
+                q = qualname_of(m, node)
+                rt = types.of(rel, node.value)
                 if node.attr == "items":
                     par = m.parents.get(node)
-                    rt = types.of(rel, node.value)
                     if rt is not None and not any(t.endswith("stack.Stack") for t in rt):
                         continue  # dict.items() etc.
                     if rt is None and isinstance(par, ast.Call) and par.func is node and not par.args:
                         continue
-                cls, home = private[node.attr]
-                q = qualname_of(m, node)
+                # whose field is it?  `self.<name>` inside another class is that class's own attribute of the same name;
+                # a receiver whose resolved type is not the owner's is another object
+                if isinstance(node.value, ast.Name) and node.value.id == "self" and "." in q and not repo.is_subclass(q.split(".")[0], cls) and q.split(".")[0] != cls:
+                    continue
+                if rt is not None and not any(t.endswith(owner_type[cls]) for t in rt) and not (isinstance(node.value, ast.Name) and node.value.id == "self"):
+                    continue
                 n += 1
                 inside = rel == home and q.startswith(cls + ".")
-                if node.attr == "_pos_history":
+                if cls == "ParserState":
                     inside = inside and q.split(".")[-1] in ("__init__", "checkpoint", "ok", "restore")
                 # reads of .items from outside are tolerated only in Stack's own module
                 ok = inside
